@@ -433,6 +433,119 @@ theorem workers_exit_after_goal {c : Cfg} {tr : Nat → State} {act : Nat → Op
     · exact ⟨0, surrForever x 0 hp⟩)
   exact hG J (fun w hw => hJ w hw J (Nat.le_refl _))
 
+theorem afterUnpark_exit {t : State} {g : Goal} (x : Nat) (h : t.current = some g) (hx : g.isExit = true) :
+    (afterUnpark t x).pc x = .exited := by
+  unfold afterUnpark
+  cases g
+  · cases hx
+  · simp [h, setPc]
+  · simp [h, setPc]
+
+theorem onLastParked_starts_exit {c : Cfg} {s : State} {tag : Nat} (hcur : s.current = none) (hgc : s.reqGc = false)
+    (hreq : s.reqShutdown = true ∨ s.reqFork = true) :
+    ∃ s1 g, onLastParked c s tag = some (s1, .wakeAll) ∧ s1.current = some g ∧ g.isExit = true ∧ s1.pc = s.pc ∧
+      s1.creation = s.creation ∧ s1.parked = s.parked := by
+  unfold onLastParked
+  simp only [hcur]
+  unfold respond
+  simp only [hcur, hgc, Option.isSome_none, Bool.false_eq_true, if_false]
+  by_cases h1 : s.reqShutdown = true
+  · simp only [h1, if_true]
+    exact ⟨_, .shutdown, rfl, rfl, rfl, rfl, rfl, rfl⟩
+  · have h2 : s.reqFork = true := by
+      rcases hreq with h | h
+      · exact absurd h h1
+      · exact h
+    simp only [h1, h2, if_true, if_false]
+    exact ⟨_, .stopForFork, rfl, rfl, rfl, rfl, rfl, rfl⟩
+
+/-- **C16 (liveness)** after a `Shutdown` / `StopForFork` request every worker exits and surrenders.
+Hypotheses (all explicit): a fair run with finitely many packets and environment actions and no assertion
+failure (as for C14); at the start the request is pending, no goal is current, every worker thread exists,
+and `prepare_surrender_buffer` has been called (`stop_gc_threads_for_forking` does so before `make_request`);
+no Gc request is pending or arrives (`Gc` has priority over exit goals: a GC requested meanwhile is served
+first — `gc_completes_under_fairness` — and this theorem applies to the run after it). -/
+theorem workers_exit_under_fairness {c : Cfg} {tr : Nat → State} {act : Nat → Option Act}
+    (hn : 0 < c.n) (hmut : c.mutAddOpen = false) (hu : c.unconIdx < c.L)
+    (R : FairRun c tr act) (hN : FiniteSpawn tr) (hE : FiniteEnv act) (hA : NoAssert c tr)
+    (hreq : (tr 0).reqShutdown = true ∨ (tr 0).reqFork = true) (hcur : (tr 0).current = none)
+    (hns : ∀ w, w < c.n → (tr 0).pc w ≠ .surrendered) (hcr : ∃ k, (tr 0).creation = .surrendered k)
+    (hnogc : ∀ j, (tr j).reqGc = false) :
+    ∃ j0 j, j0 ≤ j ∧ (∃ g, (tr j0).current = some g ∧ g.isExit = true) ∧ (∀ w, w < c.n → (tr j).pc w = .surrendered) := by
+  have hP0 : Pending c (tr 0) := by
+    refine ⟨Or.inl ?_, (show NoExit (tr 0) from fun g hg => by rw [hcur] at hg; cases hg), hns⟩
+    simp only [anyRequested, Bool.or_eq_true]
+    rcases hreq with h | h
+    · exact Or.inl (Or.inr h)
+    · exact Or.inr h
+  obtain ⟨jl, hjl⟩ := last_park_eventually hn hmut hu R hN hE hA hP0
+  obtain ⟨j0, hl0, hleast⟩ := exists_least (fun j => IsLastPark c (tr j) (act j)) ⟨jl, hjl.1⟩
+  have hpre : ∀ i, i ≤ j0 → Pending c (tr i) ∧ (tr i).current = none ∧
+      ((tr i).reqShutdown = true ∨ (tr i).reqFork = true) ∧ ∃ k, (tr i).creation = .surrendered k := by
+    intro i
+    induction i with
+    | zero => intro _; exact ⟨hP0, hcur, hreq, hcr⟩
+    | succ i ih =>
+      intro hi
+      obtain ⟨hp, hc, hrq, k, hk⟩ := ih (by omega)
+      cases ha : act i with
+      | none => rw [R.stutter_at ha]; exact ⟨hp, hc, hrq, k, hk⟩
+      | some a =>
+        have hs := R.step_at ha
+        have hnl : ¬ IsLastPark c (tr i) (some a) := by rw [← ha]; exact hleast i (by omega)
+        obtain ⟨f1, _, f3, f4, _⟩ := nonlast_step_frame hn (R.reach i) hp.2.1 hs hnl
+        refine ⟨pending_step hn (R.reach i) hp hs hnl, by rw [f1]; exact hc, ?_, ?_⟩
+        · rcases hrq with h | h
+          · exact Or.inl (f3 h)
+          · exact Or.inr (f4 h)
+        · have hA' := reachable_invA (R.reach i)
+          have hE' := (reachable_invE hn (R.reach i)).2
+          rcases step_other_E c _ _ a hs with ⟨w, tag, rfl⟩ | ⟨w, rfl⟩ | ⟨w, rfl⟩ | rfl | ⟨_, hcre, _⟩
+          · obtain ⟨_, _, _, hcase⟩ := step_park_cases hs
+            rcases hcase with ⟨_, e⟩ | ⟨hl, _⟩
+            · exact ⟨k, by rw [e]; exact hk⟩
+            · exact absurd ⟨w, tag, rfl, hl⟩ hnl
+          · simp only [step] at hs
+            split at hs
+            · injection hs with hs; rw [← hs, afterUnpark_creation]; exact ⟨k, hk⟩
+            · cases hs
+          · exact ⟨_, (step_surrender_pc hs).2.2.choose_spec⟩
+          · exfalso
+            simp only [step] at hs
+            rw [hk] at hs
+            simp only at hs
+            split at hs
+            · rename_i hkn
+              have := no_parking_when_all_surrendered hA' (by rw [hk, hkn]) 0 hn
+              exact hp.2.2 0 hn this
+            · cases hs
+          · rcases hcre with e | e
+            · exact ⟨k, by rw [e]; exact hk⟩
+            · exact ⟨0, e⟩
+  obtain ⟨hp0, hc0, hrq0, k0, hk0⟩ := hpre j0 (Nat.le_refl _)
+  obtain ⟨w, tag, hact, hlast⟩ := hl0
+  have hs := R.step_at hact
+  obtain ⟨hw, hpcw, _, _⟩ := step_park_cases hs
+  obtain ⟨s1, g, hlp, hg1, hg2, hpc1, hcr1, _⟩ := onLastParked_starts_exit (c := c) (tag := tag)
+    (s := { tr j0 with parked := (tr j0).parked + 1, trace := [] }) hc0 (hnogc j0) hrq0
+  have hs' := step_park_wakeAll hs hlast hlp
+  have hA0 := reachable_invA (R.reach j0)
+  have hphase : ExitPhase c (tr (j0 + 1)) := by
+    rw [hs']
+    refine ⟨⟨g, by rw [afterUnpark_current]; exact hg1, hg2⟩, ⟨k0, by rw [afterUnpark_creation]; show s1.creation = _; rw [hcr1]; exact hk0⟩, ?_⟩
+    intro x hx
+    by_cases e : x = w
+    · subst e
+      rw [afterUnpark_exit (t := { notifyAll s1 with parked := (notifyAll s1).parked - 1 }) x hg1 hg2]; rfl
+    · rw [afterUnpark_pc_other e]
+      have hpar := countW_all_but c.n (fun y => ((tr j0).pc y).isParked) w hw (by simp [hpcw, PC.isParked])
+        (by have := hA0.parked_eq; unfold parkedCount at this; omega) x hx e
+      show qLate ((notifyAll s1).pc x) = true
+      simp only [notifyAll, hpc1]
+      cases hp : (tr j0).pc x <;> rw [hp] at hpar <;> simp_all [PC.isParked, qLate]
+  obtain ⟨j, hj⟩ := workers_exit_after_goal hn (R.shift (j0 + 1)) hphase
+  exact ⟨j0 + 1, j0 + 1 + j, by omega, hphase.1, hj⟩
+
 open Mmtk.Generated.Stages in
 /-- a complete fork round trip with 2 workers: request, both workers exit and surrender, respawn -/
 def forkRun : List Act :=
